@@ -776,4 +776,9 @@ Section GenB.
     exfalso. unfold urgent, child_urgent in U. rewrite Ec in U.
     destruct (negb (started s)), (sq_urgent (store s)); discriminate.
   Qed.
+
+  (* the keys held in the store of a reachable state are pairwise distinct (the arrival counter differs), which is
+     the hypothesis under which the list model pops exactly what heapq pops (pq_refines_heapq_pop) *)
+  Theorem srv_store_distinct_keys s : reachS s -> distinct_keys entry_ltb (items (store s)).
+  Proof. intros R. destruct (Inv_reach _ R) as (_ & _ & _ & HO & _). apply ordl_distinct. exact HO. Qed.
 End GenB.
